@@ -241,6 +241,8 @@ fn write_evidence(a: &CheckArgs, p: &PropSpec, st: &Stats, wall: f64, replay: Op
             "dead_probes": dead,
             "distinct_schedules": st.schedules.len(),
             "distinct_histories": st.histories.len(),
+            "distinct_abstract_states": st.abstract_states.len(),
+            "abstract_state_definition": "per store: (dispatch-queue length, dispatch calls in flight, reducer phase, shutdown invoked, shutdown returned, live pool workers, subscriber-queue occupancy), recomputed from the history after every event",
             "inconclusive": st.inconclusive,
             "determinism_rechecked": { "runs": st.determinism_rechecked, "mismatches": st.determinism_mismatch },
             "components": {
